@@ -170,7 +170,7 @@ fn serve() -> Result<(), Failure> {
     std::mem::forget(handle);
     std::mem::forget(rx);
     let base = format!("http://127.0.0.1:{}", port);
-    let client = reqwest::Client::builder().timeout(Duration::from_secs(20)).build().map_err(|e| Failure::error(e.to_string()))?;
+    let client = reqwest::Client::builder().timeout(Duration::from_secs(45)).build().map_err(|e| Failure::error(e.to_string()))?;
     let mut up = false;
     for _ in 0..300 {
         if rt.block_on(async { client.get(format!("{}/hey", base)).send().await }).is_ok() {
@@ -185,6 +185,24 @@ fn serve() -> Result<(), Failure> {
     drop(_enter);
     *g = Some(Served { dbh, base, rt, client });
     Ok(())
+}
+
+/// A request that did not complete within the client's time limit is a time budget running out (the machine may be
+/// loaded), not evidence about the server: it is classified like a busy hang, i.e. counted as inconclusive.
+/// Any other transport error (connection reset because the handler died, ...) is a violation.
+fn transport_failure(e: &reqwest::Error, text: String) -> Failure {
+    let mut chain = String::new();
+    let mut src: Option<&dyn std::error::Error> = std::error::Error::source(e);
+    while let Some(s) = src {
+        chain.push_str(&format!(" <- {}", s));
+        src = s.source();
+    }
+    let mut f = Failure::mismatch(format!("{}{}", text, chain)).tag("transport");
+    if e.is_timeout() {
+        f.kind = "hang".into();
+        f = f.tag("hang").tag("busy").tag("http_timeout");
+    }
+    f
 }
 
 pub fn check(case: &Case, env: &mut CaseEnv) -> Result<(), Failure> {
@@ -213,15 +231,18 @@ pub fn check(case: &Case, env: &mut CaseEnv) -> Result<(), Failure> {
     env.sample(|| json!({"history": desc}));
     let mut nontrivial = false;
     let mut last_was_error = false;
+    let fresh = reqwest::Client::builder().timeout(Duration::from_secs(45)).pool_max_idle_per_host(0).build().map_err(|e| Failure::error(e.to_string()))?;
     let result: Result<(), Failure> = (|| {
         for (si, step) in steps.iter().enumerate() {
             match step {
                 Step::Insert(req) => {
                     env.class("insert");
                     let body = req.to_event_buffer().serialize();
+                    // inserts are not idempotent, so they are never retried: they go over a connection of their own
+                    // (no idle pooled connection that the server may have closed in the meantime)
                     let resp = rt
-                        .block_on(async { client.post(format!("{}/insert_bin", base)).body(body).send().await })
-                        .map_err(|e| Failure::mismatch(format!("step {}: /insert_bin transport error: {}", si, e)).tag("transport"))?;
+                        .block_on(async { fresh.post(format!("{}/insert_bin", base)).body(body).send().await })
+                        .map_err(|e| transport_failure(&e, format!("step {}: /insert_bin transport error: {}", si, e)))?;
                     if !resp.status().is_success() {
                         return Err(Failure::mismatch(format!("step {}: /insert_bin answered {}", si, resp.status())).tag("insert_status"));
                     }
@@ -238,20 +259,32 @@ pub fn check(case: &Case, env: &mut CaseEnv) -> Result<(), Failure> {
                         Ok(out) => out.colnames.iter().enumerate().filter(|(i, _)| i % 2 == 0).map(|(_, n)| n.clone()).collect(),
                         Err(_) => HashSet::new(),
                     };
-                    let (label, resp) = match endpoint % 7 {
-                        0 => ("endpoint:query", rt.block_on(async { client.post(format!("{}/query", base)).json(&QueryRequest { query: sql.clone() }).send().await })),
-                        1 => ("endpoint:query_cols", rt.block_on(async { client.post(format!("{}/query_cols", base)).json(&QueryRequest { query: sql.clone() }).send().await })),
-                        2 => ("endpoint:multi_json", rt.block_on(async { client.post(format!("{}/multi_query_cols", base)).json(&MultiQueryRequest { queries: vec![sql.clone()], encoding_opts: None }).send().await })),
-                        3 => ("endpoint:multi_bin", rt.block_on(async { client.post(format!("{}/multi_query_cols", base)).json(&MultiQueryRequest { queries: vec![sql.clone()], encoding_opts: Some(EncodingOpts { xor_float_compression: false, mantissa: None, full_precision_cols: HashSet::new() }) }).send().await })),
-                        4 => ("endpoint:multi_bin_xor", rt.block_on(async { client.post(format!("{}/multi_query_cols", base)).json(&MultiQueryRequest { queries: vec![sql.clone()], encoding_opts: Some(EncodingOpts { xor_float_compression: true, mantissa: None, full_precision_cols: HashSet::new() }) }).send().await })),
-                        5 => ("endpoint:multi_bin_mantissa", rt.block_on(async { client.post(format!("{}/multi_query_cols", base)).json(&MultiQueryRequest { queries: vec![sql.clone()], encoding_opts: Some(EncodingOpts { xor_float_compression: true, mantissa: Some(20), full_precision_cols: HashSet::new() }) }).send().await })),
-                        _ => ("endpoint:multi_bin_mantissa_full_precision_cols", rt.block_on(async { client.post(format!("{}/multi_query_cols", base)).json(&MultiQueryRequest { queries: vec![sql.clone()], encoding_opts: Some(EncodingOpts { xor_float_compression: true, mantissa: Some(20), full_precision_cols: full_precision.clone() }) }).send().await })),
+                    let (label, builder) = match endpoint % 7 {
+                        0 => ("endpoint:query", client.post(format!("{}/query", base)).json(&QueryRequest { query: sql.clone() })),
+                        1 => ("endpoint:query_cols", client.post(format!("{}/query_cols", base)).json(&QueryRequest { query: sql.clone() })),
+                        2 => ("endpoint:multi_json", client.post(format!("{}/multi_query_cols", base)).json(&MultiQueryRequest { queries: vec![sql.clone()], encoding_opts: None })),
+                        3 => ("endpoint:multi_bin", client.post(format!("{}/multi_query_cols", base)).json(&MultiQueryRequest { queries: vec![sql.clone()], encoding_opts: Some(EncodingOpts { xor_float_compression: false, mantissa: None, full_precision_cols: HashSet::new() }) })),
+                        4 => ("endpoint:multi_bin_xor", client.post(format!("{}/multi_query_cols", base)).json(&MultiQueryRequest { queries: vec![sql.clone()], encoding_opts: Some(EncodingOpts { xor_float_compression: true, mantissa: None, full_precision_cols: HashSet::new() }) })),
+                        5 => ("endpoint:multi_bin_mantissa", client.post(format!("{}/multi_query_cols", base)).json(&MultiQueryRequest { queries: vec![sql.clone()], encoding_opts: Some(EncodingOpts { xor_float_compression: true, mantissa: Some(20), full_precision_cols: HashSet::new() }) })),
+                        _ => ("endpoint:multi_bin_mantissa_full_precision_cols", client.post(format!("{}/multi_query_cols", base)).json(&MultiQueryRequest { queries: vec![sql.clone()], encoding_opts: Some(EncodingOpts { xor_float_compression: true, mantissa: Some(20), full_precision_cols: full_precision.clone() }) })),
+                    };
+                    // A pooled keep-alive connection may have been closed by the server while it was idle; hyper reports
+                    // that as "connection closed before message completed" on reuse. Queries are idempotent: one retry
+                    // on a new connection. A handler that really dies fails the retry as well and is reported.
+                    let send = |b: reqwest::RequestBuilder| rt.block_on(async { b.send().await });
+                    let first = send(builder.try_clone().expect("request body is in memory"));
+                    let resp = match first {
+                        Err(e) if !e.is_timeout() && (e.is_request() || e.is_connect()) => {
+                            env.class("http:retry_after_closed_connection");
+                            send(builder)
+                        }
+                        r => r,
                     };
                     env.class(label);
                     let resp = match resp {
                         Ok(r) => r,
                         Err(e) => {
-                            let f = Failure::mismatch(format!("{} via {}: no HTTP response (transport error: {}); embedded outcome: {}", ctx, label, e, if emb_rows.is_ok() { "ok" } else { "error" })).tag("transport").tag(label);
+                            let f = transport_failure(&e, format!("{} via {}: no HTTP response (transport error: {}); embedded outcome: {}", ctx, label, e, if emb_rows.is_ok() { "ok" } else { "error" })).tag(label);
                             if env.kf_absorb("C17", &f).is_some() {
                                 last_was_error = false;
                                 continue;
@@ -260,7 +293,7 @@ pub fn check(case: &Case, env: &mut CaseEnv) -> Result<(), Failure> {
                         }
                     };
                     let status = resp.status();
-                    let bytes = rt.block_on(resp.bytes()).map_err(|e| Failure::mismatch(format!("{}: body: {}", ctx, e)).tag("transport"))?;
+                    let bytes = rt.block_on(resp.bytes()).map_err(|e| transport_failure(&e, format!("{}: body: {}", ctx, e)))?;
                     match (&emb_rows, &emb_cols) {
                         (Err(_), _) | (_, Err(_)) => {
                             if !(status.is_client_error() || status.is_server_error()) {
@@ -384,7 +417,7 @@ pub fn check(case: &Case, env: &mut CaseEnv) -> Result<(), Failure> {
         match resp {
             Ok(r) if r.status().is_success() => Ok(()),
             Ok(r) => Err(Failure::mismatch(format!("final request answered {} after [{}]", r.status(), desc)).tag("final")),
-            Err(e) => Err(Failure::mismatch(format!("final request failed: {} after [{}]", e, desc)).tag("final")),
+            Err(e) => Err(transport_failure(&e, format!("final request failed: {} after [{}]", e, desc)).tag("final")),
         }
     })();
     db::clear_panics();
